@@ -513,3 +513,8 @@ _add("C04", "Added: THE PROPERTY FOR EVERY INPUT - bzip2_writer_is_lossless (Bzi
      "level and data) and is checked on the implementation by the oracle.")
 _add("C03", "Added: concatenated Writer-produced members of any levels decode to the concatenation of their inputs, consumed to "
      "the last byte, for every list of inputs (bzip2_concatenated_members_decode_to_concatenation).")
+
+_add("C10", "KNOWN FINDING D10 (third session, found by the implementation-level model of flate.Reader): over a ReadByte-only "
+     "source flate.Reader reports UnexpectedEOF instead of Corrupted for an invalid dynamic block whose violation lies in "
+     "the last two bytes of the input (class bytereader-eof-before-corruption-at-end in known_findings.txt; witnesses are "
+     "generated on every run, a different dependence of the class on the source is still a violation).")
